@@ -66,7 +66,10 @@ def check_inventory(spec, mo):
     names = [r[0] for r in assocs]
     if len(set(names)) != len(names): probs.append('two association declarations share one class')
     if probs:
-        return Violation(what=probs[0][:300], fingerprint='C06:classes:' + probs[0].split(' ')[0], replay={'spec': spec, 'problems': probs})
+        fp = 'C06:classes:' + probs[0].split(' ')[0]
+        if any(a['leftField'] == a['rightField'] for a in spec['associations']) and probs[0].startswith('association class'):
+            fp = 'C06:same-field-name-on-both-ends'
+        return Violation(what=probs[0][:300], fingerprint=fp, replay={'spec': spec, 'problems': probs})
     if mo is not None:
         ma = [[n, d] for n, d in mo['assets']]
         if ma != [[n, g] for n, g, *_ in assets]:
@@ -165,3 +168,7 @@ def replay(path):
     v = check_inventory(r['spec'], None)
     print(v.what if v else 'no violation'); print('VIOLATION reproduced' if v else 'not reproduced')
     return 1 if v else 0
+
+def check_witness(w):
+    v = check_inventory(w['spec'], None)
+    return v.fingerprint if v else None
